@@ -22,6 +22,22 @@ Theorem C14_zip : forall I J (other : nat -> J) (src : nat -> I) n,
 Proof. exact (fun I J other => imap_exact (fun i x => (x, other i))). Qed.
 Print Assumptions C14_zip.
 
+(* a finite operand paired with the source (zero fill after it ends): still one pull per item *)
+Theorem C14_zip_finite_left : forall I J (pad : J) (fin : list J) (src : nat -> I) n,
+  exact (m_zip_fin_l pad fin) src n (prefix (fun i => (nth i fin pad, src i)) n) n.
+Proof. exact (fun I J pad fin => imap_exact (fun i (x : I) => (nth i fin pad, x))). Qed.
+Print Assumptions C14_zip_finite_left.
+
+Theorem C14_zip_finite_right : forall I J (pad : J) (fin : list J) (src : nat -> I) n,
+  exact (m_zip_fin_r pad fin) src n (prefix (fun i => (src i, nth i fin pad)) n) n.
+Proof. exact (fun I J pad fin => imap_exact (fun i (x : I) => (x, nth i fin pad))). Qed.
+Print Assumptions C14_zip_finite_right.
+
+Theorem C14_vectorised_finite : forall (op : Z -> Z -> Z) (fin : list Z) (src : nat -> Z) n,
+  exact (m_vec_fin op fin) src n (prefix (fun i => op (nth i fin 0%Z) (src i)) n) n.
+Proof. exact (fun op fin => imap_exact (fun i x => op (nth i fin 0%Z) x)). Qed.
+Print Assumptions C14_vectorised_finite.
+
 Theorem C14_vectorised_add : forall (other src : nat -> Z) n,
   exact (m_vec_add other) src n (prefix (fun i => (src i + other i)%Z) n) n.
 Proof. exact (fun other => imap_exact (fun i x => (x + other i)%Z)). Qed.
@@ -215,6 +231,10 @@ Print Assumptions C14_interleave_lin.
 Theorem C14_interleave_finite_lin : forall I (fin : list I), lin_bounded (m_interleave_fin fin) 1 0.
 Proof. exact (@interleave_fin_bounded). Qed.
 Print Assumptions C14_interleave_finite_lin.
+
+Theorem C14_interleave_finite_right_lin : forall I (fin : list I), lin_bounded (m_interleave_fin_r fin) 1 0.
+Proof. exact (@interleave_fin_r_bounded). Qed.
+Print Assumptions C14_interleave_finite_right_lin.
 
 Theorem C14_insert_at_lin : forall I p (v : I), lin_bounded (m_insert_at p v) 1 0.
 Proof. exact (@insert_at_bounded). Qed.
